@@ -380,6 +380,75 @@ def _native_free_rest():
   return {'reproduced': bad, 'model': 'single free body, qd = 0', 'gradient': [np.asarray(a).tolist() for a in g]}
 
 
+def contact_rest_defined(pipeline, gap):
+  """"including at rest": the derivative program of the contact resolution at a CONCRETE rest state (body velocity 0; hovering, touching or penetrating the ground), with a symbolic
+  tangent: a NaN or a division by zero computed from finite operands is the failed side condition (the plain norm of a zero tangential velocity, an unguarded 0/0)"""
+  tag = {0.4: 'hover', 0.0: 'touch', -0.01: 'penetrate'}[gap]
+
+  def body(A):
+    from brax.io import mjcf
+    from brax.base import Motion
+    import importlib
+    r = 0.1
+    xml = ('<mujoco><option timestep="0.002"/><worldbody><geom name="floor" type="plane" size="5 5 0.1"/><body name="a" pos="0.3 -0.2 %g"><freejoint/>'
+           '<geom type="sphere" size="%g"/></body></worldbody></mujoco>' % (r + gap, r))
+    sys = mjcf.loads(xml)
+    pl = importlib.import_module('brax.%s.pipeline' % pipeline)
+    st = pl.init(sys, sys.init_q, jp.zeros(6))
+    tv, ta, tp = A.arr('tv', (1, 3)), A.arr('ta', (1, 3)), A.arr('tp', (1, 3))
+    I = Interp(A)
+    from verif.engine.alg import Unsupported
+    try:
+      if pipeline == 'spring':
+        from brax.spring import collisions
+
+        def f(vel, ang):
+          o = collisions.resolve(sys, st.replace(xd_i=Motion(ang=ang, vel=vel)))
+          return o.vel, o.ang
+        sym_call(I, lambda dv, da: jax.jvp(f, (st.xd_i.vel, st.xd_i.ang), (dv, da)), Sym(tv), Sym(ta))
+      else:
+        from brax.positional import collisions
+        from brax import contact
+
+        def f(pos, vel):
+          s2 = st.replace(x_i=st.x_i.replace(pos=pos), xd_i=st.xd_i.replace(vel=vel))
+          c = contact.get(sys, s2.x)
+          x_new, dl = collisions.resolve_position(sys, s2, st.x_i, c)
+          xdv = collisions.resolve_velocity(sys, s2.replace(x_i=x_new), st.xd_i, c, dl)
+          return x_new.pos, xdv.vel, xdv.ang
+        sym_call(I, lambda dp, dv: jax.jvp(f, (st.x_i.pos, st.xd_i.vel), (dp, dv)), Sym(tp), Sym(tv))
+    except Unsupported as ex:
+      if 'division by the constant 0' in str(ex):
+        return [], [False], (lambda w: _native_contact_rest(pipeline, xml))
+      if not I.concrete_nans:
+        raise
+    except (ValueError, OverflowError):
+      if not (I.concrete_nans or I.concrete_infs):      # a NaN/inf already recorded by the interpreter reached symbolic arithmetic: that value is the verdict
+        raise
+    if I.concrete_nans or I.concrete_infs:
+      return [], [False], (lambda w: dict(_native_contact_rest(pipeline, xml), derivative_program_nan_at=I.concrete_nans[:3], derivative_program_zero_denominator_at=I.concrete_infs[:3]))
+    goal = [c_ for _, c_ in A.side]
+    return [], (goal or [True]), (lambda w: _native_contact_rest(pipeline, xml))
+  return smt_custom('C03/%s.collisions/jvp_defined_at_rest[%s]' % (pipeline, tag), 'brax.%s.collisions:resolve%s' % (pipeline, '' if pipeline == 'spring' else '_position,resolve_velocity'),
+                    'a sphere at rest (velocity 0) %s the ground: the forward-mode derivative of the contact resolution in EVERY tangent direction has no zero denominator, no negative radicand and no '
+                    'NaN computed from finite operands (the epsilon guards 1e-6 + |v_t|, safe_norm, count + 1e-8 of the contact kernels)' % {'hover': 'hovering 0.4 above', 'touch': 'just touching', 'penetrate': 'penetrating'}[tag],
+                    body, timeout=120, budget=400, abstract=True)
+
+
+def _native_contact_rest(pipeline, xml):
+  import importlib
+  from brax.io import mjcf
+  sys = mjcf.loads(xml)
+  pl = importlib.import_module('brax.%s.pipeline' % pipeline)
+
+  def loss(q, qd):
+    s = pl.step(sys, pl.init(sys, q, qd), jp.zeros(0))
+    return jp.sum(s.x.pos) + jp.sum(s.xd.vel) + jp.sum(s.q) + jp.sum(s.qd)
+  g = jax.grad(loss, argnums=(0, 1))(sys.init_q, jp.zeros(6))
+  bad = not all(np.isfinite(np.asarray(a)).all() for a in g)
+  return {'reproduced': bad, 'pipeline': pipeline, 'gradient': [np.asarray(a).tolist() for a in g]}
+
+
 def _native_grad_helper(which):
   from brax import math
   bad = []
@@ -532,6 +601,9 @@ def obligations(tier):
   ]
 
   obs += [contact_kernel_defined('spring'), contact_kernel_defined('positional')]
+  for pl_ in ('spring', 'positional'):
+    for gap_ in (0.4, 0.0, -0.01):
+      obs.append(contact_rest_defined(pl_, gap_))
   for w_ in WORDS:
     obs.append(zero_angle_defined(w_, 'xyz'))
   for w_ in ('sss', 'hhh', 'shs', 'hh', 'hs'):
